@@ -14,6 +14,9 @@ ARR2 = X.arr(F64, [2])
 FAMILIES = []
 for _leaf in (X.struct(I64, X.arr(F64, [-1])), X.struct(I64, X.arr(F64, [3]))):
     FAMILIES.append((_leaf, X.struct(I8, X.ref(_leaf), X.arr(X.uref(_leaf, ARR2), [2]), X.STR)))
+for _leaf in (X.struct(I64, X.arr(F64, [-1])), X.struct(I64, X.arr(F64, [3]))):
+    # the two further slots as an array of PLAIN references (the model only ever binds leaves to them)
+    FAMILIES.append((_leaf, X.struct(I8, X.ref(_leaf), X.arr(X.ref(_leaf), [2]), X.STR)))
 LEAF, HOLDER = FAMILIES[0]
 SLOT = {"r": [("f", 1)], "u1": [("f", 2), ("i", [0])], "u2": [("f", 2), ("i", [1])]}
 
@@ -44,7 +47,7 @@ def export(run):
 def replay(model, seed, index):
     """execute one model history; returns the recorded history (with gen info) or None when the harness cannot follow it"""
     rng = random.Random(f"{seed}:gen:{index}")
-    LEAF, HOLDER = FAMILIES[index % 2]
+    LEAF, HOLDER = FAMILIES[index % len(FAMILIES)]
     w = World(rng, caps=[rng.choice([0, 64, 256]), rng.choice([0, 64, 256]), 64])
     w.index = index
     keys = []                 # model object index (1-based) -> world key
